@@ -288,8 +288,8 @@ def finish(ctx, manifest_entry, sections, replay_fn, t0):
           f"wall={ev['wall_s']}s")
     if seen:
         return 1
-    if undecided:
-        for o in undecided[:10]:
-            print(f"UNDECIDED obligation {o.name}: {o.detail[:200]}")
+    if undecided or untrans:
+        for o in (undecided + untrans)[:10]:
+            print(f"UNDECIDED obligation {o.name} ({o.status}): {o.detail[:200]}")
         return 2
     return 0
